@@ -1,4 +1,786 @@
-(** C06 — proofs (under construction) *)
+(** C06 — proofs: the backing invariant is inductive over operation histories. *)
 From Coq Require Import List Bool Arith ZArith Lia.
 Import ListNotations.
 Require Import Nib.C06.Model Nib.C06.Spec.
+Local Open Scope Z_scope.
+
+Local Opaque Module.
+
+(** * The unbacked margin of a mapping (0 = backed exactly) *)
+Definition slack (s : st) (m : mapping) : Z :=
+  if m_coin m then bank s Module (m_den m) - esup s (m_tok m)
+  else ebal s (m_tok m) Module - supply s (m_den m).
+
+(** * The invariant *)
+Record Inv (s : st) : Prop := {
+  inv_nd_tok : NoDup (map m_tok (reg s));
+  inv_nd_den : NoDup (map m_den (reg s));
+  inv_slack : forall m, In m (reg s) -> 0 <= slack s m;
+  inv_fresh : forall m, In m (reg s) -> (m_tok m < next_tok s)%nat;
+  inv_tk : forall t b, tk s t = Some b -> (t < next_tok s)%nat;
+  inv_erc_den : forall m, In m (reg s) -> m_coin m = false -> m_den m = DErc (m_tok m);
+  inv_unmapped : forall t, ~ In (DErc t) (map m_den (reg s)) -> supply s (DErc t) = 0;
+  inv_bank_nn : forall a d, 0 <= bank s a d;
+  inv_ebal_nn : forall t a, 0 <= ebal s t a
+}.
+
+(** * Small facts *)
+Definition ind (c : bool) (x : Z) : Z := if c then x else 0.
+
+Lemma denom_eqb_refl d : denom_eqb d d = true.
+Proof. apply denom_eqb_eq. reflexivity. Qed.
+
+Lemma denom_eqb_neq a b : a <> b -> denom_eqb a b = false.
+Proof. intro H. destruct (denom_eqb a b) eqn:E; [apply denom_eqb_eq in E; contradiction | reflexivity]. Qed.
+
+Lemma denom_eqb_false a b : denom_eqb a b = false -> a <> b.
+Proof. intros H E. subst. rewrite denom_eqb_refl in H. discriminate. Qed.
+
+Lemma find_den_some s d m : find_den s d = Some m -> In m (reg s) /\ m_den m = d.
+Proof.
+  unfold find_den. intro H. apply find_some in H as [H1 H2]. split; [exact H1|]. apply denom_eqb_eq. exact H2.
+Qed.
+
+Lemma find_tok_some s t m : find_tok s t = Some m -> In m (reg s) /\ m_tok m = t.
+Proof.
+  unfold find_tok. intro H. apply find_some in H as [H1 H2]. split; [exact H1|]. apply Nat.eqb_eq. exact H2.
+Qed.
+
+Lemma find_den_none s d : find_den s d = None -> ~ In d (map m_den (reg s)).
+Proof.
+  unfold find_den. intros H Hin. apply in_map_iff in Hin as [m [E Hm]].
+  pose proof (find_none _ _ H m Hm) as F. simpl in F. rewrite E, denom_eqb_refl in F. discriminate.
+Qed.
+
+Lemma find_tok_none s t : find_tok s t = None -> ~ In t (map m_tok (reg s)).
+Proof.
+  unfold find_tok. intros H Hin. apply in_map_iff in Hin as [m [E Hm]].
+  pose proof (find_none _ _ H m Hm) as F. simpl in F. rewrite E, Nat.eqb_refl in F. discriminate.
+Qed.
+
+Lemma find_den_in s d : In d (map m_den (reg s)) -> exists m, find_den s d = Some m.
+Proof.
+  intro H. destruct (find_den s d) eqn:E; [eauto|]. apply find_den_none in E. contradiction.
+Qed.
+
+Lemma find_tok_in s t : In t (map m_tok (reg s)) -> exists m, find_tok s t = Some m.
+Proof.
+  intro H. destruct (find_tok s t) eqn:E; [eauto|]. apply find_tok_none in E. contradiction.
+Qed.
+
+Lemma nodup_map_inj {A B} (f : A -> B) (l : list A) x y :
+  NoDup (map f l) -> In x l -> In y l -> f x = f y -> x = y.
+Proof.
+  induction l as [|a l IH]; simpl; intros Hn Hx Hy E; [contradiction|].
+  inversion Hn as [|? ? Hnotin Hn']; subst.
+  destruct Hx as [Hx|Hx], Hy as [Hy|Hy]; subst; auto.
+  - exfalso. apply Hnotin. rewrite E. apply in_map. exact Hy.
+  - exfalso. apply Hnotin. rewrite <- E. apply in_map. exact Hx.
+Qed.
+
+(** two registered mappings are the same one or share neither the ERC20 nor the denom *)
+Lemma reg_cases s m m0 : Inv s -> In m (reg s) -> In m0 (reg s) ->
+  m = m0 \/ (m_tok m <> m_tok m0 /\ m_den m <> m_den m0).
+Proof.
+  intros I Hm Hm0.
+  destruct (Nat.eq_dec (m_tok m) (m_tok m0)) as [E|E].
+  - left. eapply nodup_map_inj; [apply (inv_nd_tok _ I)| | |]; eauto.
+  - destruct (denom_eqb (m_den m) (m_den m0)) eqn:D.
+    + left. apply denom_eqb_eq in D. eapply nodup_map_inj; [apply (inv_nd_den _ I)| | |]; eauto.
+    + right. split; [exact E|]. apply denom_eqb_false. exact D.
+Qed.
+
+(** * What the ledger primitives do (pointwise, additive) *)
+
+(** everything except the numeric ledgers is untouched *)
+Definition frame_eq (s s' : st) : Prop :=
+  reg s' = reg s /\ next_tok s' = next_tok s /\ tk s' = tk s.
+
+Lemma frame_eq_refl s : frame_eq s s.
+Proof. repeat split. Qed.
+
+Lemma frame_eq_trans a b c : frame_eq a b -> frame_eq b c -> frame_eq a c.
+Proof. unfold frame_eq. intros [A1 [A2 A3]] [B1 [B2 B3]]. repeat split; congruence. Qed.
+
+Lemma bank_send_spec s a b d x s' : bank_send s a b d x = Some s' ->
+  frame_eq s s' /\ 0 <= x <= bank s a d /\
+  (forall a' d', bank s' a' d' = bank s a' d' + ind (denom_eqb d' d) (ind (Nat.eqb a' b) x - ind (Nat.eqb a' a) x)) /\
+  supply s' = supply s /\ ebal s' = ebal s /\ esup s' = esup s.
+Proof.
+  unfold bank_send. destruct (x <? 0) eqn:E1; simpl; [discriminate|].
+  destruct (bank s a d <? x) eqn:E2; [discriminate|].
+  intro H. inversion H; subst; clear H. simpl.
+  apply Z.ltb_ge in E1. apply Z.ltb_ge in E2.
+  split; [repeat split|]. split; [lia|]. split; [|auto].
+  intros a' d'. unfold updB, ind.
+  destruct (Nat.eqb a' b) eqn:Eb; destruct (Nat.eqb a' a) eqn:Ea; destruct (denom_eqb d' d) eqn:Ed; simpl;
+    try apply Nat.eqb_eq in Eb; try apply Nat.eqb_eq in Ea; try apply denom_eqb_eq in Ed; subst;
+    rewrite ?Nat.eqb_refl, ?denom_eqb_refl, ?Ea, ?Eb, ?Ed; simpl; try lia.
+  all: try (rewrite Nat.eqb_sym in Eb; rewrite ?Eb; simpl; lia).
+  all: try (rewrite Nat.eqb_sym in Ea; rewrite ?Ea; simpl; lia).
+Qed.
+
+(** case analysis on every boolean test in the goal, with the decoded (in)equalities in context *)
+Ltac split_ifs :=
+  repeat match goal with
+         | |- context [if ?c then _ else _] => let E := fresh "E" in destruct c eqn:E
+         end.
+Ltac decode :=
+  repeat match goal with
+         | H : Nat.eqb _ _ = true |- _ => apply Nat.eqb_eq in H
+         | H : Nat.eqb _ _ = false |- _ => apply Nat.eqb_neq in H
+         | H : denom_eqb _ _ = true |- _ => apply denom_eqb_eq in H
+         | H : denom_eqb _ _ = false |- _ => apply denom_eqb_false in H
+         | H : andb _ _ = true |- _ => apply andb_true_iff in H; destruct H
+         | H : andb _ _ = false |- _ => apply andb_false_iff in H; destruct H
+         | H : orb _ _ = false |- _ => apply orb_false_iff in H; destruct H
+         | H : negb _ = true |- _ => apply negb_true_iff in H
+         | H : negb _ = false |- _ => apply negb_false_iff in H
+         | H : (_ <? _) = true |- _ => apply Z.ltb_lt in H
+         | H : (_ <? _) = false |- _ => apply Z.ltb_ge in H
+         | H : (_ <=? _) = true |- _ => apply Z.leb_le in H
+         | H : (_ <=? _) = false |- _ => apply Z.leb_gt in H
+         | H : (_ =? _) = true |- _ => apply Z.eqb_eq in H
+         | H : (_ =? _) = false |- _ => apply Z.eqb_neq in H
+         end.
+Ltac pointwise := unfold ind, updB, updD, updE, updT; simpl; split_ifs; decode; subst; try congruence; try lia; try tauto.
+
+Lemma bank_mint_spec s a d x s' : bank_mint s a d x = Some s' ->
+  frame_eq s s' /\ 0 <= x /\
+  (forall a' d', bank s' a' d' = bank s a' d' + ind (denom_eqb d' d) (ind (Nat.eqb a' a) x)) /\
+  (forall d', supply s' d' = supply s d' + ind (denom_eqb d' d) x) /\ ebal s' = ebal s /\ esup s' = esup s.
+Proof.
+  unfold bank_mint. destruct (x <? 0) eqn:E1; [discriminate|].
+  intro H. inversion H; subst; clear H. simpl. decode.
+  split; [repeat split|]. split; [lia|]. split; [|split; [|auto]].
+  - intros a' d'. pointwise.
+  - intros d'. pointwise.
+Qed.
+
+Lemma bank_burn_spec s a d x s' : bank_burn s a d x = Some s' ->
+  frame_eq s s' /\ 0 <= x <= bank s a d /\
+  (forall a' d', bank s' a' d' = bank s a' d' - ind (denom_eqb d' d) (ind (Nat.eqb a' a) x)) /\
+  (forall d', supply s' d' = supply s d' - ind (denom_eqb d' d) x) /\ ebal s' = ebal s /\ esup s' = esup s.
+Proof.
+  unfold bank_burn. destruct (x <? 0) eqn:E1; simpl; [discriminate|].
+  destruct (bank s a d <? x) eqn:E2; [discriminate|].
+  intro H. inversion H; subst; clear H. simpl. decode.
+  split; [repeat split|]. split; [lia|]. split; [|split; [|auto]].
+  - intros a' d'. pointwise.
+  - intros d'. pointwise.
+Qed.
+
+Lemma fee_of_bounds b x : 0 <= x -> 0 <= fee_of b x <= x.
+Proof. unfold fee_of. lia. Qed.
+
+Lemma erc_transfer_spec s b t from to x s' : erc_transfer s b t from to x = Some s' ->
+  frame_eq s s' /\ 0 <= x <= ebal s t from /\
+  (forall t' a', ebal s' t' a' = ebal s t' a' +
+     ind (Nat.eqb t' t) (ind (Nat.eqb a' to) (x - fee_of b x) + ind (Nat.eqb a' (tb_sink b)) (fee_of b x) - ind (Nat.eqb a' from) x)) /\
+  bank s' = bank s /\ supply s' = supply s /\ esup s' = esup s.
+Proof.
+  unfold erc_transfer. destruct (x <? 0) eqn:E1; simpl; [discriminate|].
+  destruct (ebal s t from <? x) eqn:E2; simpl; [discriminate|].
+  destruct (tb_pos b && (x =? 0)) eqn:E3; [discriminate|].
+  intro H. inversion H; subst; clear H. simpl. clear E3. decode.
+  split; [repeat split|]. split; [lia|]. split; [|auto].
+  intros t' a'. pointwise.
+Qed.
+
+Lemma measured_transfer_spec s t from to x s' got : measured_transfer s t from to x = Some (s', got) ->
+  exists b, tk s t = Some b /\ erc_transfer s b t from to x = Some s' /\
+            got = ebal s' t to - ebal s t to /\ 0 < got.
+Proof.
+  unfold measured_transfer. destruct (tk s t) as [b|]; [|discriminate].
+  destruct (tb_heavy b || tb_false b); [discriminate|].
+  destruct (erc_transfer s b t from to x) as [s1|] eqn:E; [|discriminate].
+  destruct (ebal s1 t to - ebal s t to <=? 0) eqn:G; [discriminate|].
+  intro H. inversion H; subst; clear H. decode. exists b. auto.
+Qed.
+
+Lemma erc_mint_spec s t to x s' : erc_mint s t to x = Some s' ->
+  frame_eq s s' /\ 0 <= x /\
+  (forall t' a', ebal s' t' a' = ebal s t' a' + ind (Nat.eqb t' t) (ind (Nat.eqb a' to) x)) /\
+  (forall t', esup s' t' = esup s t' + ind (Nat.eqb t' t) x) /\ bank s' = bank s /\ supply s' = supply s.
+Proof.
+  unfold erc_mint. destruct (x <? 0) eqn:E1; [discriminate|].
+  intro H. inversion H; subst; clear H. simpl. decode.
+  split; [repeat split|]. split; [lia|]. split; [|split; [|auto]].
+  - intros t' a'. pointwise.
+  - intros t'. pointwise.
+Qed.
+
+Lemma erc_burn_spec s t a x s' : erc_burn s t a x = Some s' ->
+  frame_eq s s' /\ 0 <= x <= ebal s t a /\
+  (forall t' a', ebal s' t' a' = ebal s t' a' - ind (Nat.eqb t' t) (ind (Nat.eqb a' a) x)) /\
+  (forall t', esup s' t' = esup s t' - ind (Nat.eqb t' t) x) /\ bank s' = bank s /\ supply s' = supply s.
+Proof.
+  unfold erc_burn. destruct (x <? 0) eqn:E1; simpl; [discriminate|].
+  destruct (ebal s t a <? x) eqn:E2; [discriminate|].
+  intro H. inversion H; subst; clear H. simpl. decode.
+  split; [repeat split|]. split; [lia|]. split; [|split; [|auto]].
+  - intros t' a'. pointwise.
+  - intros t'. pointwise.
+Qed.
+
+(** * Non-negativity of both ledgers is preserved by every primitive *)
+Definition nn (s : st) : Prop := (forall a d, 0 <= bank s a d) /\ (forall t a, 0 <= ebal s t a).
+
+Lemma bank_send_nn s a b d x s' : nn s -> bank_send s a b d x = Some s' -> nn s'.
+Proof.
+  intros [Nb Ne] H. apply bank_send_spec in H as [_ [Hx [Hb [_ [He _]]]]]. split.
+  - intros a' d'. rewrite Hb. pose proof (Nb a' d'). pose proof (Nb a d). pointwise.
+  - intros. rewrite He. apply Ne.
+Qed.
+
+Lemma bank_mint_nn s a d x s' : nn s -> bank_mint s a d x = Some s' -> nn s'.
+Proof.
+  intros [Nb Ne] H. apply bank_mint_spec in H as [_ [Hx [Hb [_ [He _]]]]]. split.
+  - intros a' d'. rewrite Hb. pose proof (Nb a' d'). pointwise.
+  - intros. rewrite He. apply Ne.
+Qed.
+
+Lemma bank_burn_nn s a d x s' : nn s -> bank_burn s a d x = Some s' -> nn s'.
+Proof.
+  intros [Nb Ne] H. apply bank_burn_spec in H as [_ [Hx [Hb [_ [He _]]]]]. split.
+  - intros a' d'. rewrite Hb. pose proof (Nb a' d'). pose proof (Nb a d). pointwise.
+  - intros. rewrite He. apply Ne.
+Qed.
+
+Lemma erc_transfer_nn s b t from to x s' : nn s -> erc_transfer s b t from to x = Some s' -> nn s'.
+Proof.
+  intros [Nb Ne] H. apply erc_transfer_spec in H as [_ [Hx [He [Hb _]]]]. split.
+  - intros. rewrite Hb. apply Nb.
+  - intros t' a'. rewrite He. pose proof (Ne t' a'). pose proof (Ne t from).
+    assert (0 <= fee_of b x <= x) by (apply fee_of_bounds; lia).
+    unfold ind. split_ifs; decode; subst; lia.
+Qed.
+
+Lemma erc_mint_nn s t to x s' : nn s -> erc_mint s t to x = Some s' -> nn s'.
+Proof.
+  intros [Nb Ne] H. apply erc_mint_spec in H as [_ [Hx [He [_ [Hb _]]]]]. split.
+  - intros. rewrite Hb. apply Nb.
+  - intros t' a'. rewrite He. pose proof (Ne t' a'). pointwise.
+Qed.
+
+Lemma erc_burn_nn s t a x s' : nn s -> erc_burn s t a x = Some s' -> nn s'.
+Proof.
+  intros [Nb Ne] H. apply erc_burn_spec in H as [_ [Hx [He [_ [Hb _]]]]]. split.
+  - intros. rewrite Hb. apply Nb.
+  - intros t' a'. rewrite He. pose proof (Ne t' a'). pose proof (Ne t a). pointwise.
+Qed.
+
+Lemma measured_transfer_nn s t from to x s' got : nn s -> measured_transfer s t from to x = Some (s', got) -> nn s'.
+Proof.
+  intros N H. apply measured_transfer_spec in H as [b [_ [H _]]]. eapply erc_transfer_nn; eauto.
+Qed.
+
+(** * One transition that keeps the registry: sufficient conditions for the invariant *)
+Definition good_step (s s' : st) : Prop :=
+  frame_eq s s' /\
+  (forall m, In m (reg s) -> slack s m <= slack s' m) /\
+  (forall t, ~ In (DErc t) (map m_den (reg s)) -> supply s' (DErc t) = supply s (DErc t)) /\
+  nn s'.
+
+Lemma good_step_inv s s' : Inv s -> good_step s s' -> Inv s'.
+Proof.
+  intros I [[Fr [Fn Ft]] [Hs [Hu [Nb Ne]]]].
+  constructor; rewrite ?Fr, ?Fn, ?Ft; try apply I.
+  - intros m Hm. pose proof (inv_slack _ I m Hm). pose proof (Hs m Hm). lia.
+  - intros t Hn. rewrite (Hu t Hn). apply (inv_unmapped _ I t Hn).
+  - exact Nb.
+  - exact Ne.
+Qed.
+
+Lemma inv_nn s : Inv s -> nn s.
+Proof. intro I. split; apply I. Qed.
+
+(** mapped ERC20-born denoms are the derived ones; an unmapped derived denom differs from every mapped denom *)
+Lemma unmapped_neq s t m : ~ In (DErc t) (map m_den (reg s)) -> In m (reg s) -> DErc t <> m_den m.
+Proof. intros Hn Hm E. apply Hn. rewrite E. apply in_map. exact Hm. Qed.
+
+Ltac slack_cases I m m0 Hm Hm0 :=
+  destruct (reg_cases _ m m0 I Hm Hm0) as [?|[?Ht ?Hd]];
+  [subst m; rewrite ?denom_eqb_refl, ?Nat.eqb_refl
+  |rewrite ?(denom_eqb_neq _ _ Hd), ?(proj2 (Nat.eqb_neq _ _) Ht)].
+
+(** ** coin-born, towards the EVM: escrow the coin, mint the ERC20 (MsgConvertCoinToEvm and sendToEvm) *)
+Lemma coin_to_evm_born_coin_good s m0 from x to s' :
+  Inv s -> In m0 (reg s) -> m_coin m0 = true -> from <> Module ->
+  coin_to_evm_born_coin s m0 from x to = Some s' ->
+  good_step s s' /\ forall m, In m (reg s) -> slack s' m = slack s m.
+Proof.
+  intros I Hm0 Hc Hf H. unfold coin_to_evm_born_coin, bind in H.
+  destruct (bank_send s from Module (m_den m0) x) as [s1|] eqn:E1; [|discriminate].
+  pose proof (bank_send_nn _ _ _ _ _ _ (inv_nn _ I) E1) as N1.
+  pose proof (erc_mint_nn _ _ _ _ _ N1 H) as N2.
+  apply bank_send_spec in E1 as [F1 [X1 [B1 [S1 [Eb1 Es1]]]]].
+  apply erc_mint_spec in H as [F2 [X2 [Eb2 [Es2 [B2 S2]]]]].
+  assert (Hsl : forall m, In m (reg s) -> slack s' m = slack s m).
+  { intros m Hm. unfold slack. rewrite Eb2, Es2, B2, S2, B1, S1, Eb1, Es1.
+    slack_cases I m m0 Hm Hm0.
+    - rewrite Hc. unfold ind. simpl. destruct (Nat.eqb Module from) eqn:E; decode; [congruence|lia].
+    - unfold ind. destruct (m_coin m); lia. }
+  split; [|exact Hsl]. split; [eapply frame_eq_trans; eauto|]. split; [|split].
+  - intros m Hm. rewrite (Hsl m Hm). lia.
+  - intros t _. rewrite S2, S1. reflexivity.
+  - exact N2.
+Qed.
+
+(** what the module itself receives back when it releases [x] escrowed tokens of behaviour [b] to [to] *)
+Definition module_gain (b : tbeh) (x : Z) (to : acct) : Z :=
+  ind (Nat.eqb Module (tb_sink b)) (fee_of b x) + ind (Nat.eqb Module to) (x - fee_of b x).
+
+Lemma module_gain_nonneg b x to : 0 <= x -> 0 <= module_gain b x to.
+Proof. intro H. pose proof (fee_of_bounds b x H). unfold module_gain, ind. split_ifs; lia. Qed.
+
+(** ** ERC20-born, towards the EVM, message path: coin to the module, burn it, release escrowed ERC20 *)
+Lemma convert_born_erc20_good s m0 from x to s' :
+  Inv s -> In m0 (reg s) -> m_coin m0 = false ->
+  convert_born_erc20 s m0 from x to = Some s' ->
+  good_step s s' /\ exists b, tk s (m_tok m0) = Some b /\ 0 <= x /\
+    forall m, In m (reg s) -> slack s' m = slack s m + ind (Nat.eqb (m_tok m) (m_tok m0)) (module_gain b x to).
+Proof.
+  intros I Hm0 Hc H. unfold convert_born_erc20, bind in H.
+  destruct (bank_send s from Module (m_den m0) x) as [s1|] eqn:E1; [|discriminate].
+  destruct (bank_burn s1 Module (m_den m0) x) as [s2|] eqn:E2; [|discriminate].
+  destruct (measured_transfer s2 (m_tok m0) Module to x) as [[s3 got]|] eqn:E3; [|discriminate].
+  simpl in H. inversion H; subst s3; clear H.
+  pose proof (bank_send_nn _ _ _ _ _ _ (inv_nn _ I) E1) as N1.
+  pose proof (bank_burn_nn _ _ _ _ _ N1 E2) as N2.
+  pose proof (measured_transfer_nn _ _ _ _ _ _ _ N2 E3) as N3.
+  apply bank_send_spec in E1 as [F1 [X1 [B1 [S1 [Eb1 Es1]]]]].
+  apply bank_burn_spec in E2 as [F2 [X2 [B2 [S2 [Eb2 Es2]]]]].
+  apply measured_transfer_spec in E3 as [b [Tk [E3 [G Gp]]]].
+  apply erc_transfer_spec in E3 as [F3 [X3 [Eb3 [B3 [S3 Es3]]]]].
+  assert (Tk0 : tk s (m_tok m0) = Some b).
+  { destruct F1 as [_ [_ T1]], F2 as [_ [_ T2]]. rewrite <- T1, <- T2. exact Tk. }
+  assert (Hx : 0 <= x) by lia.
+  pose proof (fee_of_bounds b x Hx) as Hf.
+  assert (Hsl : forall m, In m (reg s) -> slack s' m = slack s m + ind (Nat.eqb (m_tok m) (m_tok m0)) (module_gain b x to)).
+  { intros m Hm. unfold slack, module_gain. rewrite Eb3, Es3, B3, S3, B2, S2, Eb2, Es2, B1, S1, Eb1, Es1.
+    slack_cases I m m0 Hm Hm0.
+    - rewrite Hc. rewrite ?Nat.eqb_refl. unfold ind. split_ifs; decode; subst; try congruence; lia.
+    - unfold ind. destruct (m_coin m); lia. }
+  split.
+  - split; [eapply frame_eq_trans; [eapply frame_eq_trans|]; eauto|]. split; [|split].
+    + intros m Hm. rewrite (Hsl m Hm). pose proof (module_gain_nonneg b x to Hx). unfold ind. split_ifs; lia.
+    + intros t Hn. rewrite S3, S2, S1. pose proof (unmapped_neq _ _ _ Hn Hm0) as Hne.
+      rewrite (denom_eqb_neq _ _ Hne). unfold ind. lia.
+    + exact N3.
+  - exists b. auto.
+Qed.
+
+(** ** ERC20-born, towards the EVM, precompile path: coin to the module, release escrowed ERC20, burn the coin *)
+Lemma send_to_evm_born_erc20_good s m0 from x to s' :
+  Inv s -> In m0 (reg s) -> m_coin m0 = false ->
+  send_to_evm_born_erc20 s m0 from x to = Some s' ->
+  good_step s s' /\ exists b, tk s (m_tok m0) = Some b /\ 0 <= x /\
+    forall m, In m (reg s) -> slack s' m = slack s m + ind (Nat.eqb (m_tok m) (m_tok m0)) (module_gain b x to).
+Proof.
+  intros I Hm0 Hc H. unfold send_to_evm_born_erc20, bind in H.
+  destruct (bank_send s from Module (m_den m0) x) as [s1|] eqn:E1; [|discriminate].
+  destruct (measured_transfer s1 (m_tok m0) Module to x) as [[s2 got]|] eqn:E2; [|discriminate].
+  simpl in H. rename H into E3.
+  pose proof (bank_send_nn _ _ _ _ _ _ (inv_nn _ I) E1) as N1.
+  pose proof (measured_transfer_nn _ _ _ _ _ _ _ N1 E2) as N2.
+  pose proof (bank_burn_nn _ _ _ _ _ N2 E3) as N3.
+  apply bank_send_spec in E1 as [F1 [X1 [B1 [S1 [Eb1 Es1]]]]].
+  apply measured_transfer_spec in E2 as [b [Tk [E2 [G Gp]]]].
+  apply erc_transfer_spec in E2 as [F2 [X2 [Eb2 [B2 [S2 Es2]]]]].
+  apply bank_burn_spec in E3 as [F3 [X3 [B3 [S3 [Eb3 Es3]]]]].
+  assert (Tk0 : tk s (m_tok m0) = Some b).
+  { destruct F1 as [_ [_ T1]]. rewrite <- T1. exact Tk. }
+  assert (Hx : 0 <= x) by lia.
+  pose proof (fee_of_bounds b x Hx) as Hf.
+  assert (Hsl : forall m, In m (reg s) -> slack s' m = slack s m + ind (Nat.eqb (m_tok m) (m_tok m0)) (module_gain b x to)).
+  { intros m Hm. unfold slack, module_gain. rewrite Eb3, Es3, B3, S3, B2, S2, Eb2, Es2, B1, S1, Eb1, Es1.
+    slack_cases I m m0 Hm Hm0.
+    - rewrite Hc. rewrite ?Nat.eqb_refl. unfold ind. split_ifs; decode; subst; try congruence; lia.
+    - unfold ind. destruct (m_coin m); lia. }
+  split.
+  - split; [eapply frame_eq_trans; [eapply frame_eq_trans|]; eauto|]. split; [|split].
+    + intros m Hm. rewrite (Hsl m Hm). pose proof (module_gain_nonneg b x to Hx). unfold ind. split_ifs; lia.
+    + intros t Hn. rewrite S3, S2, S1. pose proof (unmapped_neq _ _ _ Hn Hm0) as Hne.
+      rewrite (denom_eqb_neq _ _ Hne). unfold ind. lia.
+    + exact N3.
+  - exists b. auto.
+Qed.
+
+(** ** towards the bank (precompile sendToBank), both births: the credited amount is the measured increase *)
+Lemma send_to_bank_good s m0 caller x to s' :
+  Inv s -> In m0 (reg s) -> caller <> Module ->
+  send_to_bank s m0 caller x to = Some s' ->
+  good_step s s' /\ forall m, In m (reg s) -> slack s' m = slack s m.
+Proof.
+  intros I Hm0 Hcl H. unfold send_to_bank, bind in H.
+  destruct (measured_transfer s (m_tok m0) caller Module x) as [[s1 got]|] eqn:E1; [|discriminate].
+  pose proof (measured_transfer_nn _ _ _ _ _ _ _ (inv_nn _ I) E1) as N1.
+  apply measured_transfer_spec in E1 as [b [Tk [E1 [G Gp]]]].
+  apply erc_transfer_spec in E1 as [F1 [X1 [Eb1 [B1 [S1 Es1]]]]].
+  destruct (m_coin m0) eqn:Hc.
+  - (* coin-born: burn what arrived, release the same amount of escrowed coin *)
+    destruct (erc_burn s1 (m_tok m0) Module got) as [s2|] eqn:E2; [|discriminate].
+    destruct (guard (negb (blocked to))) eqn:Gd; [|discriminate]. simpl in H.
+    unfold guard, blocked in Gd. destruct (Nat.eqb to Module) eqn:Eto; [discriminate|]. clear Gd.
+    pose proof (erc_burn_nn _ _ _ _ _ N1 E2) as N2.
+    pose proof (bank_send_nn _ _ _ _ _ _ N2 H) as N3.
+    apply erc_burn_spec in E2 as [F2 [X2 [Eb2 [Es2 [B2 S2]]]]].
+    apply bank_send_spec in H as [F3 [X3 [B3 [S3 [Eb3 Es3]]]]].
+    assert (Hsl : forall m, In m (reg s) -> slack s' m = slack s m).
+    { intros m Hm. unfold slack. rewrite Eb3, Es3, B3, S3, B2, S2, Eb2, Es2, B1, S1, Es1.
+      slack_cases I m m0 Hm Hm0.
+      - rewrite Hc. rewrite ?Nat.eqb_refl. rewrite (Nat.eqb_sym Module to), Eto. unfold ind. lia.
+      - unfold ind. rewrite Eb1. rewrite (proj2 (Nat.eqb_neq _ _) Ht). unfold ind. destruct (m_coin m); lia. }
+    split; [|exact Hsl].
+    split; [eapply frame_eq_trans; [eapply frame_eq_trans|]; eauto|]. split; [|split].
+    + intros m Hm. rewrite (Hsl m Hm). lia.
+    + intros t _. rewrite S3, S2, S1. reflexivity.
+    + exact N3.
+  - (* ERC20-born: mint exactly the measured increase, send it on *)
+    destruct (bank_mint s1 Module (m_den m0) got) as [s2|] eqn:E2; [|discriminate].
+    destruct (guard (negb (blocked to))) eqn:Gd; [|discriminate]. simpl in H.
+    unfold guard, blocked in Gd. destruct (Nat.eqb to Module) eqn:Eto; [discriminate|]. clear Gd.
+    pose proof (bank_mint_nn _ _ _ _ _ N1 E2) as N2.
+    pose proof (bank_send_nn _ _ _ _ _ _ N2 H) as N3.
+    apply bank_mint_spec in E2 as [F2 [X2 [B2 [S2 [Eb2 Es2]]]]].
+    apply bank_send_spec in H as [F3 [X3 [B3 [S3 [Eb3 Es3]]]]].
+    assert (Hsl : forall m, In m (reg s) -> slack s' m = slack s m).
+    { intros m Hm. unfold slack. rewrite Eb3, Es3, B3, S3, B2, S2, Eb2, Es2, B1, Es1.
+      slack_cases I m m0 Hm Hm0.
+      - rewrite Hc. rewrite G. rewrite S1. unfold ind. lia.
+      - rewrite Eb1, S1. rewrite (proj2 (Nat.eqb_neq _ _) Ht). rewrite (Nat.eqb_sym Module to), Eto. unfold ind. destruct (m_coin m); lia. }
+    split; [|exact Hsl].
+    split; [eapply frame_eq_trans; [eapply frame_eq_trans|]; eauto|]. split; [|split].
+    + intros m Hm. rewrite (Hsl m Hm). lia.
+    + intros t Hn. rewrite S3, S2, S1. pose proof (unmapped_neq _ _ _ Hn Hm0) as Hne.
+      rewrite (denom_eqb_neq _ _ Hne). unfold ind. lia.
+    + exact N3.
+Qed.
+
+(** * Registry-changing steps *)
+Lemma nodup_snoc {A} (l : list A) (x : A) : NoDup l -> ~ In x l -> NoDup (l ++ [x]).
+Proof.
+  induction l as [|a l IH]; simpl; intros Hn Hx; [constructor; [intros []|constructor]|].
+  inversion Hn; subst. constructor.
+  - intro Hin. apply in_app_or in Hin as [Hin|[Hin|[]]]; [contradiction|]. subst. apply Hx. left. reflexivity.
+  - apply IH; [assumption|]. intro. apply Hx. right. assumption.
+Qed.
+
+Lemma slack_new_token s b owner x m :
+  (m_tok m < next_tok s)%nat -> slack (new_token s b owner x) m = slack s m.
+Proof.
+  intro H. unfold slack, new_token, updT. simpl.
+  assert (E : Nat.eqb (m_tok m) (next_tok s) = false) by (apply Nat.eqb_neq; lia).
+  rewrite E. reflexivity.
+Qed.
+
+Lemma new_token_inv s b owner x : Inv s -> 0 <= x -> Inv (new_token s b owner x).
+Proof.
+  intros I Hx. constructor; simpl; try apply I.
+  - intros m Hm. rewrite slack_new_token; [apply I; exact Hm | apply I; exact Hm].
+  - intros m Hm. pose proof (inv_fresh _ I m Hm). lia.
+  - intros t b0. unfold updT. destruct (Nat.eqb t (next_tok s)) eqn:E; decode.
+    + intros _. lia.
+    + intro H. pose proof (inv_tk _ I t b0 H). lia.
+  - intros t a. destruct (Nat.eqb t (next_tok s)); [destruct (Nat.eqb a owner); lia | apply I].
+Qed.
+
+Lemma create_from_coin_ok s d s' : Inv s -> exec s (CreateFromCoin d) = Some s' ->
+  Inv s' /\ (forall m, In m (reg s) -> In m (reg s') /\ slack s' m = slack s m) /\
+  exists t, reg s' = reg s ++ [{| m_tok := t; m_den := d; m_coin := true |}].
+Proof.
+  intros I H. simpl in H. unfold bind, guard in H.
+  destruct (negb (is_some (find_den s d)) && meta s d) eqn:G1; [|discriminate].
+  destruct (negb (is_some (find_tok s (next_tok s)))) eqn:G2; [|discriminate].
+  inversion H; subst s'; clear H. simpl.
+  apply andb_true_iff in G1 as [G1 _]. apply negb_true_iff in G1.
+  destruct (find_den s d) eqn:Fd; [discriminate|]. apply find_den_none in Fd.
+  assert (Hold : forall m, In m (reg s) ->
+            slack (set_reg (new_token s minter_beh Module 0)
+                     (reg s ++ [{| m_tok := next_tok s; m_den := d; m_coin := true |}])) m = slack s m).
+  { intros m Hm. rewrite <- (slack_new_token s minter_beh Module 0 m); [reflexivity | apply I; exact Hm]. }
+  pose proof (new_token_inv s minter_beh Module 0 I ltac:(lia)) as I1.
+  split; [|split].
+  - constructor; simpl.
+    + rewrite map_app. simpl. apply nodup_snoc; [apply I|].
+      intro Hin. apply in_map_iff in Hin as [m [E Hm]]. pose proof (inv_fresh _ I m Hm). lia.
+    + rewrite map_app. simpl. apply nodup_snoc; [apply I | exact Fd].
+    + intros m Hm. apply in_app_or in Hm as [Hm|[Hm|[]]].
+      * rewrite (Hold m Hm). apply I. exact Hm.
+      * subst m. unfold slack. simpl. unfold updT. rewrite Nat.eqb_refl.
+        pose proof (inv_bank_nn _ I Module d). lia.
+    + intros m Hm. apply in_app_or in Hm as [Hm|[Hm|[]]].
+      * pose proof (inv_fresh _ I m Hm). lia.
+      * subst m. simpl. lia.
+    + apply (inv_tk _ I1).
+    + intros m Hm Hc. apply in_app_or in Hm as [Hm|[Hm|[]]]; [apply I; assumption | subst m; discriminate].
+    + intros t Hn. apply (inv_unmapped _ I). intro Hin. apply Hn. rewrite map_app. apply in_or_app. left. exact Hin.
+    + apply I.
+    + apply (inv_ebal_nn _ I1).
+  - intros m Hm. split; [apply in_or_app; left; exact Hm | apply Hold; exact Hm].
+  - exists (next_tok s). reflexivity.
+Qed.
+
+Lemma create_from_erc20_ok s t s' : Inv s -> exec s (CreateFromErc20 t) = Some s' ->
+  Inv s' /\ (forall m, In m (reg s) -> In m (reg s') /\ slack s' m = slack s m) /\
+  reg s' = reg s ++ [{| m_tok := t; m_den := DErc t; m_coin := false |}].
+Proof.
+  intros I H. simpl in H. unfold bind, guard in H.
+  destruct (negb (is_some (find_tok s t)) && is_some (tk s t) && negb (meta s (DErc t))
+            && negb (is_some (find_den s (DErc t)))) eqn:G; [|discriminate].
+  inversion H; subst s'; clear H. simpl.
+  apply andb_true_iff in G as [G G4]. apply andb_true_iff in G as [G _]. apply andb_true_iff in G as [G1 G2].
+  apply negb_true_iff in G1, G4.
+  destruct (find_tok s t) eqn:Ft; [discriminate|]. apply find_tok_none in Ft.
+  destruct (find_den s (DErc t)) eqn:Fd; [discriminate|]. apply find_den_none in Fd.
+  destruct (tk s t) as [b|] eqn:Tk; [|discriminate].
+  split; [|split].
+  - constructor; simpl.
+    + rewrite map_app. simpl. apply nodup_snoc; [apply I | exact Ft].
+    + rewrite map_app. simpl. apply nodup_snoc; [apply I | exact Fd].
+    + intros m Hm. apply in_app_or in Hm as [Hm|[Hm|[]]].
+      * apply (inv_slack _ I m Hm).
+      * subst m. unfold slack. simpl. rewrite (inv_unmapped _ I t Fd). pose proof (inv_ebal_nn _ I t Module). lia.
+    + intros m Hm. apply in_app_or in Hm as [Hm|[Hm|[]]].
+      * apply I. exact Hm.
+      * subst m. simpl. apply (inv_tk _ I t b Tk).
+    + apply I.
+    + intros m Hm Hc. apply in_app_or in Hm as [Hm|[Hm|[]]]; [apply I; assumption | subst m; reflexivity].
+    + intros t' Hn. apply (inv_unmapped _ I). intro Hin. apply Hn. rewrite map_app. apply in_or_app. left. exact Hin.
+    + apply I.
+    + apply I.
+  - intros m Hm. split; [apply in_or_app; left; exact Hm | reflexivity].
+  - reflexivity.
+Qed.
+
+(** * Every operation preserves the invariant, keeps every mapping, and never lowers a margin *)
+Lemma good_step_ok s s' : Inv s -> good_step s s' ->
+  Inv s' /\ forall m, In m (reg s) -> In m (reg s') /\ slack s m <= slack s' m.
+Proof.
+  intros I G. split; [eapply good_step_inv; eauto|].
+  destruct G as [[Fr _] [Hs _]]. intros m Hm. rewrite Fr. split; [exact Hm | apply Hs; exact Hm].
+Qed.
+
+Lemma same_ok s : Inv s -> Inv s /\ forall m, In m (reg s) -> In m (reg s) /\ slack s m <= slack s m.
+Proof. intro I. split; [exact I|]. intros. split; [assumption|lia]. Qed.
+
+Lemma exec_ok s o s' : Inv s -> exec s o = Some s' ->
+  Inv s' /\ forall m, In m (reg s) -> In m (reg s') /\ slack s m <= slack s' m.
+Proof.
+  intros I H. destruct o; simpl in H.
+  - (* Fund *)
+    destruct d as [n|t]; [|discriminate].
+    apply good_step_ok; [exact I|].
+    pose proof (bank_mint_nn _ _ _ _ _ (inv_nn _ I) H) as N.
+    apply bank_mint_spec in H as [F [X [B [S [Eb Es]]]]].
+    split; [exact F|]. split; [|split; [|exact N]].
+    + intros m Hm. unfold slack. rewrite B, S, Eb, Es. destruct (m_coin m) eqn:Hc.
+      * unfold ind. split_ifs; lia.
+      * rewrite (inv_erc_den _ I m Hm Hc). simpl. unfold ind. lia.
+    + intros t _. rewrite S. simpl. unfold ind. lia.
+  - (* SetMeta *)
+    destruct d; [|discriminate]. inversion H; subst s'. 
+    split; [constructor; simpl; apply I|]. intros m Hm. split; [exact Hm|]. unfold slack. simpl. lia.
+  - (* Deploy *)
+    unfold bind, guard in H. destruct (negb (Nat.eqb owner Module) && (0 <=? x)) eqn:G; [|discriminate].
+    inversion H; subst s'; clear H. decode.
+    split; [apply new_token_inv; assumption|].
+    intros m Hm. split; [exact Hm|]. rewrite slack_new_token; [lia | apply I; exact Hm].
+  - (* CreateFromCoin *)
+    destruct (create_from_coin_ok s d s' I H) as [I' [Hk _]]. split; [exact I'|].
+    intros m Hm. destruct (Hk m Hm) as [A B]. split; [exact A | lia].
+  - (* CreateFromErc20 *)
+    destruct (create_from_erc20_ok s t s' I H) as [I' [Hk _]]. split; [exact I'|].
+    intros m Hm. destruct (Hk m Hm) as [A B]. split; [exact A | lia].
+  - (* ConvertCoinToEvm *)
+    unfold bind, guard in H. destruct (negb (Nat.eqb sender Module)) eqn:G; [|discriminate]. decode.
+    destruct (find_den s d) as [m0|] eqn:Fd; [|discriminate]. apply find_den_some in Fd as [Hm0 _].
+    apply good_step_ok; [exact I|]. destruct (m_coin m0) eqn:Hc.
+    + eapply coin_to_evm_born_coin_good; eauto.
+    + eapply convert_born_erc20_good; eauto.
+  - (* SendToBank *)
+    unfold bind, guard in H. destruct (negb (Nat.eqb caller Module) && (0 <? x)) eqn:G; [|discriminate]. decode.
+    destruct (find_tok s t) as [m0|] eqn:Ft; [|discriminate]. apply find_tok_some in Ft as [Hm0 _].
+    apply good_step_ok; [exact I|]. eapply send_to_bank_good; eauto.
+  - (* SendToEvm *)
+    unfold bind, guard in H. destruct (negb (Nat.eqb caller Module) && (0 <? x)) eqn:G; [|discriminate]. decode.
+    destruct (find_den s d) as [m0|] eqn:Fd; [|discriminate]. apply find_den_some in Fd as [Hm0 _].
+    apply good_step_ok; [exact I|]. destruct (m_coin m0) eqn:Hc.
+    + eapply coin_to_evm_born_coin_good; eauto.
+    + eapply send_to_evm_born_erc20_good; eauto.
+  - (* BankMsgSend *)
+    unfold bind, guard in H.
+    destruct (negb (Nat.eqb caller Module) && (0 <? x) && negb (blocked to)) eqn:G; [|discriminate].
+    unfold blocked in G. decode.
+    apply good_step_ok; [exact I|].
+    pose proof (bank_send_nn _ _ _ _ _ _ (inv_nn _ I) H) as N.
+    apply bank_send_spec in H as [F [X [B [S [Eb Es]]]]].
+    split; [exact F|]. split; [|split; [|exact N]].
+    + intros m Hm. unfold slack. rewrite B, S, Eb, Es.
+      rewrite (proj2 (Nat.eqb_neq Module to)), (proj2 (Nat.eqb_neq Module caller)) by congruence.
+      unfold ind. split_ifs; lia.
+    + intros t0 _. rewrite S. reflexivity.
+  - (* Erc20Transfer *)
+    unfold bind, guard in H. destruct (negb (Nat.eqb caller Module)) eqn:G; [|discriminate]. decode.
+    destruct (tk s t) as [b|] eqn:Tk; [|inversion H; subst; apply same_ok; exact I].
+    destruct (tb_heavy b); [discriminate|].
+    destruct (tb_false b); [inversion H; subst; apply same_ok; exact I|].
+    apply good_step_ok; [exact I|].
+    pose proof (erc_transfer_nn _ _ _ _ _ _ _ (inv_nn _ I) H) as N.
+    apply erc_transfer_spec in H as [F [X [Eb [B [S Es]]]]].
+    assert (Hf : 0 <= fee_of b x <= x) by (apply fee_of_bounds; lia).
+    split; [exact F|]. split; [|split; [|exact N]].
+    + intros m Hm. unfold slack. rewrite B, S, Eb, Es.
+      rewrite (proj2 (Nat.eqb_neq Module caller)) by congruence.
+      unfold ind. split_ifs; lia.
+    + intros t0 _. rewrite S. reflexivity.
+  - (* Erc20Burn *)
+    unfold bind, guard in H. destruct (negb (Nat.eqb caller Module)) eqn:G; [|discriminate]. decode.
+    destruct (tk s t) as [b|] eqn:Tk; [|inversion H; subst; apply same_ok; exact I].
+    destruct (tb_burn b); [|discriminate]. simpl in H.
+    apply good_step_ok; [exact I|].
+    pose proof (erc_burn_nn _ _ _ _ _ (inv_nn _ I) H) as N.
+    apply erc_burn_spec in H as [F [X [Eb [Es [B S]]]]].
+    split; [exact F|]. split; [|split; [|exact N]].
+    + intros m Hm. unfold slack. rewrite B, S, Eb, Es.
+      rewrite (proj2 (Nat.eqb_neq Module caller)) by congruence.
+      unfold ind. split_ifs; lia.
+    + intros t0 _. rewrite S. reflexivity.
+  - discriminate.
+Qed.
+
+(** * Transactions (framed operations) and histories *)
+Lemma step_ok s o : Inv s ->
+  Inv (fst (step s o)) /\ forall m, In m (reg s) -> In m (reg (fst (step s o))) /\ slack s m <= slack (fst (step s o)) m.
+Proof.
+  revert s. induction o; intros s I;
+    try (simpl; match goal with |- context [exec s ?o] => destruct (exec s o) as [s'|] eqn:E end;
+         [exact (exec_ok _ _ _ I E) | apply same_ok; exact I]).
+  simpl. match goal with f : frame |- _ => destruct f end; simpl; try (apply same_ok; exact I); apply IHo; exact I.
+Qed.
+
+Lemma init_inv : Inv init.
+Proof.
+  constructor; simpl; try (intros; contradiction); try (intros; lia); try constructor.
+  - intros t b H. discriminate.
+  - intros. reflexivity.
+Qed.
+
+Lemma run_inv s ops : Inv s -> Inv (run s ops).
+Proof.
+  revert s. induction ops as [|o r IH]; intros s I; [exact I|].
+  unfold run. simpl. apply IH. apply step_ok. exact I.
+Qed.
+
+(** * From the invariant to the observable property *)
+Lemma backed_view s m : backed (view_map s m) <-> 0 <= slack s m.
+Proof. unfold backed, slack, view_map. simpl. destruct (m_coin m); lia. Qed.
+
+Lemma inv_P_obs s : Inv s -> P_obs (view s).
+Proof.
+  intro I. unfold P_obs, unique, view. rewrite !map_map. simpl. split; [split; apply I|].
+  apply Forall_forall. intros o Ho. apply in_map_iff in Ho as [m [E Hm]]. subst o.
+  apply backed_view. apply I. exact Hm.
+Qed.
+
+Lemma views_P s ops : Inv s -> P (views s ops).
+Proof.
+  revert s. induction ops as [|o r IH]; intros s I; simpl; [constructor|].
+  pose proof (proj1 (step_ok s o I)) as I'. constructor; [apply inv_P_obs; exact I' | apply IH; exact I'].
+Qed.
+
+Lemma backing_invariant ops : P (views init ops).
+Proof. apply views_P. exact init_inv. Qed.
+
+Lemma backing_invariant_state ops :
+  forall m, In m (reg (run init ops)) ->
+    (m_coin m = true -> esup (run init ops) (m_tok m) <= bank (run init ops) Module (m_den m)) /\
+    (m_coin m = false -> supply (run init ops) (m_den m) <= ebal (run init ops) (m_tok m) Module).
+Proof.
+  intros m Hm. pose proof (inv_slack _ (run_inv init ops init_inv) m Hm) as H. unfold slack in H.
+  split; intro Hc; rewrite Hc in H; lia.
+Qed.
+
+(** * Uniqueness of mappings *)
+Lemma unique_mapping ops :
+  NoDup (map m_tok (reg (run init ops))) /\ NoDup (map m_den (reg (run init ops))).
+Proof. pose proof (run_inv init ops init_inv) as I. split; apply I. Qed.
+
+Lemma create_coin_rejected s d : In d (map m_den (reg s)) -> exec s (CreateFromCoin d) = None.
+Proof.
+  intro H. destruct (find_den_in s d H) as [m E]. simpl. rewrite E. reflexivity.
+Qed.
+
+Lemma create_erc20_rejected s t :
+  In t (map m_tok (reg s)) \/ In (DErc t) (map m_den (reg s)) -> exec s (CreateFromErc20 t) = None.
+Proof.
+  intros [H|H]; simpl.
+  - destruct (find_tok_in s t H) as [m E]. rewrite E. reflexivity.
+  - destruct (find_den_in s _ H) as [m E]. rewrite E. simpl. rewrite !andb_false_r. reflexivity.
+Qed.
+
+(** a failed or reverted transaction changes nothing at all *)
+Lemma rejected_changes_nothing s o : snd (step s o) = false -> fst (step s o) = s.
+Proof.
+  revert s. induction o; intro s;
+    try (simpl; match goal with |- context [exec s ?o] => destruct (exec s o) end; simpl; [discriminate | reflexivity]).
+  simpl. match goal with f : frame |- _ => destruct f end; simpl; try reflexivity; try discriminate; apply IHo.
+Qed.
+
+Lemma reverted_frame_changes_nothing s o :
+  fst (step s (Framed FInnerRevert o)) = s /\ fst (step s (Framed FRevertTop o)) = s /\ fst (step s (Framed FOog o)) = s.
+Proof. simpl. auto. Qed.
+
+(** * The amount credited on one side is the measured amount on the other *)
+Lemma send_to_bank_amounts s m0 caller x to s' :
+  Inv s -> In m0 (reg s) -> caller <> Module ->
+  send_to_bank s m0 caller x to = Some s' ->
+  let d := m_den m0 in let t := m_tok m0 in
+  let got := bank s' to d - bank s to d in
+  0 < got <= x /\
+  (m_coin m0 = true -> esup s t - esup s' t = got /\ bank s Module d - bank s' Module d = got) /\
+  (m_coin m0 = false -> supply s' d - supply s d = got /\ ebal s' t Module - ebal s t Module = got).
+Proof.
+  intros I Hm0 Hcl H. unfold send_to_bank, bind in H.
+  destruct (measured_transfer s (m_tok m0) caller Module x) as [[s1 g]|] eqn:E1; [|discriminate].
+  apply measured_transfer_spec in E1 as [b [Tk [E1 [G Gp]]]].
+  apply erc_transfer_spec in E1 as [F1 [X1 [Eb1 [B1 [S1 Es1]]]]].
+  assert (Hf : 0 <= fee_of b x <= x) by (apply fee_of_bounds; lia).
+  assert (Hg : g <= x).
+  { rewrite G, Eb1. rewrite Nat.eqb_refl. rewrite (proj2 (Nat.eqb_neq Module caller)) by congruence.
+    unfold ind. split_ifs; lia. }
+  destruct (m_coin m0) eqn:Hc.
+  - destruct (erc_burn s1 (m_tok m0) Module g) as [s2|] eqn:E2; [|discriminate].
+    destruct (guard (negb (blocked to))) eqn:Gd; [|discriminate]. simpl in H.
+    unfold guard, blocked in Gd. destruct (Nat.eqb to Module) eqn:Eto; [discriminate|]. clear Gd.
+    apply erc_burn_spec in E2 as [F2 [X2 [Eb2 [Es2 [B2 S2]]]]].
+    apply bank_send_spec in H as [F3 [X3 [B3 [S3 [Eb3 Es3]]]]].
+    simpl. rewrite !B3, Es3, Es2, B2, B1, Es1. rewrite denom_eqb_refl, !Nat.eqb_refl.
+    rewrite Eto, (Nat.eqb_sym Module to), Eto. unfold ind.
+    split; [lia|]. split; [intros _; lia | discriminate].
+  - destruct (bank_mint s1 Module (m_den m0) g) as [s2|] eqn:E2; [|discriminate].
+    destruct (guard (negb (blocked to))) eqn:Gd; [|discriminate]. simpl in H.
+    unfold guard, blocked in Gd. destruct (Nat.eqb to Module) eqn:Eto; [discriminate|]. clear Gd.
+    apply bank_mint_spec in E2 as [F2 [X2 [B2 [S2 [Eb2 Es2]]]]].
+    apply bank_send_spec in H as [F3 [X3 [B3 [S3 [Eb3 Es3]]]]].
+    simpl. rewrite !B3, S3, S2, Eb3, Eb2, !B2, B1, S1. rewrite denom_eqb_refl, !Nat.eqb_refl.
+    rewrite Eto. unfold ind.
+    split; [lia|]. split; [discriminate | intros _; lia].
+Qed.
+
+(** coin-born towards the EVM: recipient's ERC20 credit = ERC20 supply increase = escrow increase = amount *)
+Lemma coin_to_evm_amounts s m0 from x to s' :
+  from <> Module -> coin_to_evm_born_coin s m0 from x to = Some s' ->
+  let d := m_den m0 in let t := m_tok m0 in
+  0 <= x /\ ebal s' t to - ebal s t to = x /\ esup s' t - esup s t = x /\
+  bank s' Module d - bank s Module d = x /\ bank s from d - bank s' from d = x.
+Proof.
+  intros Hf H. unfold coin_to_evm_born_coin, bind in H.
+  destruct (bank_send s from Module (m_den m0) x) as [s1|] eqn:E1; [|discriminate].
+  apply bank_send_spec in E1 as [F1 [X1 [B1 [S1 [Eb1 Es1]]]]].
+  apply erc_mint_spec in H as [F2 [X2 [Eb2 [Es2 [B2 S2]]]]].
+  simpl. rewrite Eb2, Es2, B2, !B1, Eb1, Es1. rewrite denom_eqb_refl, !Nat.eqb_refl.
+  rewrite (proj2 (Nat.eqb_neq Module from)), (proj2 (Nat.eqb_neq from Module)) by congruence.
+  unfold ind. lia.
+Qed.
